@@ -454,7 +454,7 @@ func valueFor(r *rng, in, out colDesc) string {
 }
 
 func emitTwice(cw *caseWriter, zone string, ti, to []colDesc, line []byte) {
-	w, err, pan := runLine(buildTemplate(ti), buildTemplate(to), line)
+	w, err, pan := runLineD(ti, to, line)
 	first := lineOutcome(w, err, pan)
 	second := "-"
 	ext := map[string]string{}
@@ -463,7 +463,7 @@ func emitTwice(cw *caseWriter, zone string, ti, to []colDesc, line []byte) {
 		out := w.all()
 		if len(out) > 0 && out[len(out)-1] == '\n' {
 			extForJSON(out[:len(out)-1], ext)
-			w2, err2, pan2 := runLine(buildTemplate(to), buildTemplate(to), out[:len(out)-1])
+			w2, err2, pan2 := runLineD(to, to, out[:len(out)-1])
 			second = lineOutcome(w2, err2, pan2)
 			// the second pass again, reading the emitted line into a row that has just held ANOTHER line with the same
 			// member names (every nested object given one more member): what the row held before leaves no trace
